@@ -264,7 +264,9 @@ func receiveUnaryResponse[T any](conn StreamingClientConn) (*Response[T], error)
 	if err := conn.Receive(new(T)); err == nil {
 		return nil, NewError(CodeUnknown, errors.New("unary stream has multiple messages"))
 	} else if err != nil && !errors.Is(err, io.EOF) {
-		return nil, NewError(CodeUnknown, err)
+		// Errors from Receive are already coded (for example canceled, if the
+		// context ended while waiting for the end of the stream).
+		return nil, err
 	}
 	return &Response[T]{
 		Msg:     &msg,
